@@ -85,9 +85,9 @@ func genBatch(rt *rapid.T, pairs []string) batch {
 		// the same small ids are used on every downstream connection on purpose
 		rs := reqSpec{Conn: c, Script: rapid.SampledFrom(scripts).Draw(rt, "script"),
 			Token: fmt.Sprintf("t%d-%d-%s", caseNo, i, rapid.StringMatching("[a-z]{3}").Draw(rt, "tokSfx")), ID: perConn[c]}
-		if !isX {
+		{
 			// sizes around the HTTP/2 frame shapes: one DATA frame carrying END_STREAM (x/net sends that up to 4 KiB),
-			// one full read buffer, several frames
+			// one full read buffer, several frames; the xprotocol frames get the same body sizes
 			size := rapid.OneOf(rapid.Just(0), rapid.Just(0), rapid.IntRange(200, 1023), rapid.IntRange(1024, 4096), rapid.IntRange(1024, 4096), rapid.IntRange(4097, 40000))
 			rs.ReqLen, rs.RespLen = size.Draw(rt, "reqLen"), size.Draw(rt, "respLen")
 		}
@@ -155,7 +155,7 @@ func runBatch(rt *rapid.T, b batch) {
 		if !ok {
 			return mesh.Action{Kind: "reply", Status: 200}
 		}
-		if !isX {
+		{
 			for _, tk := range mesh.TokensIn(r.Body) {
 				if tk != r.Token {
 					bad(b.Pair+"/request-header-body-mix", "the upstream received request %s (header and path) with a body carrying the marker of request %s (body length %d, sent %d)", r.Token, tk, len(r.Body), len(padded(r.Token, "-req", sp.ReqLen)))
@@ -172,7 +172,7 @@ func runBatch(rt *rapid.T, b batch) {
 		a.Body = body
 		a.Header = [][2]string{{mesh.TokenHeader, r.Token}}
 		if isX {
-			a.Frame = mesh.XBuildResponse(up, r.XID, r.Token, []byte("-resp"))
+			a.Frame = mesh.XBuildResponse(up, r.XID, r.Token, padded(r.Token, "-resp", sp.RespLen)[len(mesh.Wrap(r.Token)):])
 			a.Status = 0
 		}
 		switch sp.Script {
@@ -252,7 +252,7 @@ func runBatch(rt *rapid.T, b batch) {
 				sent := map[uint64]reqSpec{}
 				for _, r := range reqs {
 					sent[r.ID] = r
-					_ = xc.Send(mesh.XBuildRequest(down, r.ID, r.Token, []byte("-req")))
+					_ = xc.Send(mesh.XBuildRequest(down, r.ID, r.Token, padded(r.Token, "-req", r.ReqLen)[len(mesh.Wrap(r.Token)):]))
 				}
 				if b.DropConn == ci {
 					time.Sleep(time.Duration(b.DropAtMs) * time.Millisecond)
